@@ -473,6 +473,7 @@ class Gen:
             "njob": rng.choice([1, 2, 3]),
             "resources": rng.choice([None, "gpu:1", "gpu:2", "gpu:2,tpu:1"]),
             "keep_going": rng.random() < 0.3,
+            "defer_cap": rng.choice([2, 3, 100]),
         }
 
 
